@@ -22,6 +22,8 @@ let url_mode (cab : bool) =
           let rel = List.map (fun c -> z_of_int (Char.code c))
               (List.of_seq (String.to_seq "a.pdb/5A9832E5287241C1838ED98914E9B7FF1/a.sym")) in
           print_endline ("B|" ^ show_pred (base_case (bytes_of_tok suffix) rel))
+        | ["R"; cf; cid; loc] ->
+          print_endline ("R|" ^ String.concat "," (List.map show_pred (redirect_case root (bytes_of_tok cf) (opt_of_tok cid) (bytes_of_tok loc))))
         | [cf; df; did; cid] ->
           let r = url_case cab root (bytes_of_tok cf) (opt_of_tok df) (opt_of_tok did) (opt_of_tok cid) in
           print_endline ("U|" ^ String.concat "|" (List.map (fun l -> String.concat "," (List.map show_pred l)) r))
